@@ -70,7 +70,7 @@ func (t *Term) IsBool() bool  { return t.W == 0 }
 
 // Factory owns the hash-consing table. Not safe for concurrent use.
 type Factory struct {
-	tab   map[string]*Term
+	tab   map[tkey]*Term
 	next  int
 	Vars  []*Term
 	true_ *Term
@@ -78,7 +78,7 @@ type Factory struct {
 }
 
 func NewFactory() *Factory {
-	f := &Factory{tab: make(map[string]*Term)}
+	f := &Factory{tab: make(map[tkey]*Term)}
 	f.true_ = f.mk(&Term{Op: OpConst, W: 0, Val: 1})
 	f.false = f.mk(&Term{Op: OpConst, W: 0, Val: 0})
 	return f
@@ -91,13 +91,27 @@ func mask(w int) uint64 {
 	return (uint64(1) << uint(w)) - 1
 }
 
+type tkey struct {
+	op         Op
+	w          int
+	val        uint64
+	lo, hi     int
+	name       string
+	a0, a1, a2 int
+}
+
 func (f *Factory) mk(t *Term) *Term {
-	var sb strings.Builder
-	fmt.Fprintf(&sb, "%d:%d:%d:%d:%d:%s", t.Op, t.W, t.Val, t.Lo, t.Hi, t.Name)
-	for _, a := range t.Args {
-		fmt.Fprintf(&sb, ",%d", a.ID)
+	k := tkey{op: t.Op, w: t.W, val: t.Val, lo: t.Lo, hi: t.Hi, name: t.Name, a0: -1, a1: -1, a2: -1}
+	switch len(t.Args) {
+	case 3:
+		k.a2 = t.Args[2].ID
+		fallthrough
+	case 2:
+		k.a1 = t.Args[1].ID
+		fallthrough
+	case 1:
+		k.a0 = t.Args[0].ID
 	}
-	k := sb.String()
 	if e, ok := f.tab[k]; ok {
 		return e
 	}
